@@ -185,7 +185,89 @@ def complex_events(tier, rng, tid0):
                                 ev['tid'] = tid
                                 events.append(ev)
                                 reqs.append(rd)
+    # sinusoidal time-function labels: amplitude, frequency and phase are one event each
+    for (m1, e1) in mags[::3]:
+        for ph in (0.0, 0.7853981633974483, -2.1, 3.0, 1e-5):
+            for w in (0.0, 10.0, 314.1592653589793, 2e4):
+                for sin in (False, True):
+                    for deg in (False, True):
+                        for hertz in (False, True):
+                            for p in (2, 3, 4):
+                                z = cmath.rect(float(f'{m1}e{e1}'), ph)
+                                text = dsp.print_sinosoidal(z, unit='V', precision=p, w=w, sin=sin, deg=deg, hertz=hertz)
+                                rd = {'mode': 'sinusoid', 'z': [z.real, z.imag], 'p': p, 'text': text, 'w': w, 'sin': sin, 'deg': deg, 'hertz': hertz}
+                                parts = tokenise_sinusoid(text, z, p, w, sin, deg, hertz, m1, e1)
+                                if parts is None:
+                                    fails.append(rd)
+                                    continue
+                                for ev in parts:
+                                    tid += 1
+                                    ev['tid'] = tid
+                                    events.append(ev)
+                                    reqs.append(rd)
     return reqs, events, fails
+
+
+def bracket(x):
+    """a positive float as (m, e10) with 9 significant digits"""
+    e = math.floor(math.log10(x)) - 8
+    return round(x / 10.0 ** e), e
+
+
+def tokenise_sinusoid(text, z, p, w, sin, deg, hertz, m1, e1):
+    """'1.41V' | '1.41V·cos(10.0/s·t+785e-3)' | '...·sin(2π·1.59Hz·t-45.0°)'"""
+    table = TABLES['display']
+    evs = []
+    if '·' not in text:
+        if w != 0:
+            return None
+        pt = parse_float_text(text, 'V', table)
+        return None if pt is None else [dict(kind='float', m=m1, e10=e1, sgn=1, p=p, M=3, **pt)]
+    if w == 0:
+        return None
+    head, rest = text.split('·', 1)
+    pt = parse_float_text(head, 'V', table)
+    if pt is None:
+        return None
+    evs.append(dict(kind='float', m=m1, e10=e1, sgn=1, p=p, M=3, **pt))
+    fn = 'sin' if sin else 'cos'
+    if not (rest.startswith(fn + '(') and rest.endswith(')')):
+        return None
+    inner = rest[len(fn) + 1:-1]
+    if hertz:
+        if not inner.startswith('2π·'):
+            return None
+        inner = inner[3:]
+    if '·t' not in inner:
+        return None
+    ftxt, phtxt = inner.split('·t', 1)
+    if hertz:
+        pf_ = parse_float_text(ftxt, 'Hz', TABLES['hz'])
+        fm, fe = bracket(w / 2 / math.pi)
+        M = 12
+    else:
+        pf_ = parse_float_text(ftxt, '/s', None)
+        fm, fe = bracket(w)
+        M = 16
+    if pf_ is None:
+        return None
+    evs.append(dict(kind='float', m=fm, e10=fe, sgn=1, p=p, M=M, **pf_))
+    phase = cmath.phase(z) + (-math.pi / 2 if sin else 0)
+    if phtxt == '':
+        if abs(phase) > 1e-4:
+            return None
+        return evs
+    if phtxt[0] not in '+-':
+        return None
+    osgn = 1 if phtxt[0] == '+' else -1
+    val = abs(math.degrees(phase)) if deg else abs(phase)
+    pp = parse_float_text(phtxt[1:], '°' if deg else '', None)
+    if pp is None or abs(phase) <= 1e-4:
+        return None
+    pm, pe = bracket(val)
+    pp['osgn'] = osgn * pp['osgn']
+    evs.append(dict(kind='float', m=pm, e10=pe, sgn=1 if phase > 0 else -1, p=p, M=16, **pp))
+    return evs
 
 
 def exact_abs_bracket(z):
@@ -285,7 +367,10 @@ def extra(tier, seed, ctx, pool):
         counts[v] = counts.get(v, 0) + 1
         tags = set()
         if 'mode' in rd:
-            tags.add('complex:' + ('cartesian' if rd['mode'] in ('cartesian', 'impedance') else 'polar'))
+            if rd['mode'] == 'sinusoid':
+                tags.add('helper:print_sinosoidal')
+            else:
+                tags.add('complex:' + ('cartesian' if rd['mode'] in ('cartesian', 'impedance') else 'polar'))
             if rd['mode'] == 'impedance':
                 tags.add('helper:print_impedance')
         else:
@@ -305,8 +390,4 @@ def extra(tier, seed, ctx, pool):
         r.observations = 1
         r.mismatches.append({'what': f'{rd["mode"]} {rd["z"]}', 'got': repr(rd['text']), 'want': 'tokenisable text', 'signature': 'untokenisable:complex', 'detail': ''})
         yield (json.dumps({'render': rd, 'event': None}), r)
-    # sinusoid labels
-    r = CaseResult(case_id='sin')
-    r.tags = ['helper:print_sinosoidal']
-    yield (json.dumps({'render': {'kind': 'sinusoid'}}), r)
     yield {'trace_validation': dict(info, verdicts=counts, module='Trace_C18.tla')}
